@@ -13,7 +13,7 @@ import (
 // drawGraph draws a graph family and size; returns adjacency and a label.
 func (c *ctx) drawGraph() (refmodel.Adj, string) {
 	g := c.g
-	fam := g.Pick(5, 1, 1, 1, 1, 1, 1)
+	fam := g.Pick(5, 1, 1, 1, 1, 1, 1, 1)
 	if fam == 0 {
 		// random multigraph up to 60 nodes with self-loops, parallel edges, unreachable parts
 		var n int
@@ -52,7 +52,23 @@ func (c *ctx) drawGraph() (refmodel.Adj, string) {
 				}
 			}
 		}
-		return adj, fmt.Sprintf("random(n=%d,dens=%d)", n, dens)
+		hubs := 0
+		if g.Chance(1, 4) {
+			// hub nodes: out-degree well beyond any small-size fast path, with parallel edges
+			hubs = g.Range(1, 2)
+			for h := 0; h < hubs; h++ {
+				u := g.Intn(n)
+				for k := g.Range(9, 40); k > 0; k-- {
+					if len(adj[u]) > 0 && g.Chance(1, 3) {
+						adj[u] = append(adj[u], adj[u][g.Intn(len(adj[u]))])
+					} else {
+						adj[u] = append(adj[u], g.Intn(n))
+					}
+				}
+			}
+			c.probe("graph_with_hub_node_outdegree_ge_9")
+		}
+		return adj, fmt.Sprintf("random(n=%d,dens=%d,hubs=%d)", n, dens, hubs)
 	}
 	// structured graphs, sizes crossing the NodeMarks growth boundaries
 	sizes := []int{2, 33, 1023, 1024, 1025, 2049, 4097, 8200, 33000, 100000}
@@ -107,6 +123,26 @@ func (c *ctx) drawGraph() (refmodel.Adj, string) {
 					adj[i] = append(adj[i], t)
 				}
 			}
+		}
+	case 7:
+		// a deep path with forward chords: at every depth a node has two successors
+		// of which the second is reachable from the first (depth-first order matters
+		// at depths beyond any recursion cut-over)
+		name = "chordpath"
+		rev := g.Chance(1, 2)
+		skip := g.Range(2, 5)
+		for i := 0; i < n; i++ {
+			var outs []int
+			if i+1 < n {
+				outs = append(outs, i+1)
+			}
+			if i+skip < n && (i%3 != 2) {
+				outs = append(outs, i+skip)
+			}
+			if rev && len(outs) == 2 {
+				outs[0], outs[1] = outs[1], outs[0]
+			}
+			adj[i] = outs
 		}
 	case 6:
 		name = "cyclechain"
